@@ -107,7 +107,12 @@ def _constructor(ctx: Ctx) -> None:
         s_.targets[0], ast.Attribute) and s_.targets[0].attr ==
         "is_symmetric" and isinstance(s_.value, ast.Name)), "is_symmetric")}
     gw = GuardWalk(ev, ls, watch)
-    env = gw.walk(Env(), func_body(new))
+    env0 = Env()
+    for p_ in new.params:
+        # scalar parameters may be re-bound under a condition
+        if p_ not in ("cls", "matrix"):
+            env0.vars[p_] = Poly.var(p_)
+    env = gw.walk(env0, func_body(new))
     mat = "matrix"
     ctx.need(mat in new.params, "Instance.__new__(..., matrix, ...)")
     n = length_of(mat)
@@ -146,6 +151,11 @@ def _constructor(ctx: Ctx) -> None:
         a = lb.as_atom()
         if a is not None and a[0] == "app" and a[1] == "max":
             args = list(a[2])
+        elif a is not None and a[0] == "ite" and a[1][0] in ("lt", "le") \
+                and isinstance(a[2], Poly) and isinstance(a[3], Poly) and \
+                {a[1][1], a[1][2]} == {a[2], a[3]} and a[1][2] == a[2]:
+            # `x if y < x else y` (the taken value is the larger one)
+            args = [a[2], a[3]]
         given = Poly.var("tour_length_lower_bound")
         rest = [p for p in args if p != given]
         if len(rest) == 1 and not has_opaque(rest[0]):
@@ -444,10 +454,16 @@ def _copy_check(ctx: Ctx, new: FuncInfo, gw: GuardWalk, ev: Any,
             except Unsupported:
                 continue
             # max_value = mult * max(upper_bound_term, n) ; min = -max or 0
-            facs = [a for a in all_atoms(mx)
+            facs = [a[2] for a in all_atoms(mx)
                     if a[0] == "app" and a[1] == "max"]
-            has_ub = any(any("maxred" in repr(x.key()) for x in a[2])
-                         for a in facs)
+            # `x if y < x else y`: the larger of the two, too
+            facs += [(a[2], a[3]) for a in all_atoms(mx)
+                     if a[0] == "ite" and a[1][0] in ("lt", "le")
+                     and isinstance(a[2], Poly) and isinstance(a[3], Poly)
+                     and {a[1][1], a[1][2]} == {a[2], a[3]}
+                     and a[1][2] == a[2]]
+            has_ub = any(any("maxred" in repr(x.key()) for x in args_)
+                         for args_ in facs)
             okd = has_ub and (mn == -mx or mn == Poly.const(0))
     ctx.ob("D5.3", new, dnode, okd,
            "dtype is requested for [-limit, limit] with limit = multiplier * "
